@@ -11,7 +11,7 @@ import sys
 
 import z3
 
-from .core import (Ctx, SSeq, SInt, Unmodelled, conj, disj, el_eq, lift, mk_seq, neg, rng)
+from .core import (_br, Ctx, SSeq, SInt, Unmodelled, conj, disj, el_eq, lift, mk_seq, neg, rng)
 
 CANON = {
     'ascii': 'ascii', 'iso8859-1': 'latin-1', 'utf-8': 'utf-8', 'utf-8-sig': 'utf-8-sig',
@@ -77,7 +77,7 @@ def encode(s, name, errors='strict'):
         return _table_encode(s, name, info)
     s = lift(s)
     ctx = Ctx.cur
-    br = ctx.branch
+    br = _br
     out = []
     if enc in ('ascii', 'latin-1'):
         lim = 128 if enc == 'ascii' else 256
@@ -171,7 +171,7 @@ def decode(s, name, errors='strict'):
         return _table_decode(s, name, info)
     s = lift(s)
     ctx = Ctx.cur
-    br = ctx.branch
+    br = _br
     el = list(s.el)
     n = len(el)
     out = []
